@@ -120,12 +120,21 @@ def make_user(table, variant):
     return user
 
 
+TAKE_FORMS = [lambda: onp.array([0, 1]), lambda: slice(None), lambda: Ellipsis, lambda: onp.array([True, True]), lambda: [0, 1],
+              lambda: slice(0, 2, 1)]
+
+
+def has_take(prog):
+    return any(ins.get("op") == "prim" and ins.get("p") == "take" for b in prog["bodies"] for ins in b)
+
+
 class Ctx:
     """variant % 4 == 2: ARRAY MODE - every value is an array of shape (2,) with equal components (the program is elementwise), so the
     ArrayBox operators, unbroadcast and array vector spaces are on the path; the two components of every result must agree"""
 
     def __init__(self, prog, variant, sched=None, name=None):
-        self.array_mode = variant % 4 == 2
+        self.array_mode = variant % 4 == 2 or has_take(prog)
+        self.ntake = 0
         self.user = make_user(prog["utable"], variant) if prog.get("utable") else None
         self.prog = prog
         self.bodies = prog["bodies"]
@@ -166,6 +175,14 @@ def prim(ctx, p, a):
         return a[0] * a[1] if v % 2 == 0 else anp.multiply(a[0], a[1])
     if p == "neg":
         return -a[0] if v % 2 == 0 else anp.negative(a[0])
+    if p == "take":
+        # x[idx] with idx selecting every entry exactly once: value-wise the identity, but through ArrayBox.__getitem__ / untake /
+        # the deferred scatter-add of the backward pass (programs with take always run in array mode)
+        if not isbox(a[0]) and onp.ndim(a[0]) == 0:
+            return a[0]          # a plain constant of the program: nothing to index
+        idx = TAKE_FORMS[(v + ctx.ntake) % len(TAKE_FORMS)]()
+        ctx.ntake += 1
+        return a[0][idx]
     if p == "nd":
         return nd_prim(a[0]) if v % 3 != 2 else anp.floor(a[0])
     if p == "bomb":
